@@ -192,8 +192,14 @@ class SessionBase:
             except Violation as v:
                 v.step = self.step
                 self.violation = v
+                self.cleanup()
+                self.account()
                 raise
+        self.cleanup()
         self.account()
+
+    def cleanup(self):
+        """release what the session holds outside the Python heap (scratch directories, injected seams)"""
 
     def account(self):
         self.st.sessions += 1
